@@ -224,8 +224,9 @@ def handleBirth (c : Cfg) (s : St) (ts bdseq id : Nat) (ans : Ans) (now wall : N
     else
       let e0 := if skipStore then [] else [Eff.nodeBirth id true]
       let (s1, e1) := cancelTimer s
-      ({ s1 with birthTs := ts, life := .birthed, bdseq := bdseq,
-                 reseq := Reseq.setNext Reseq.init 1 }, e0 ++ e1)
+      -- a new node birth invalidates the births of its devices: the ones held birthed are told so
+      let e2 := (s1.devices.filter fun d => d.2 == Life.birthed).map fun d => Eff.devStale d.1
+      ({ s1 with birthTs := ts, life := .birthed, bdseq := bdseq, reseq := Reseq.setNext Reseq.init 1, devices := s1.devices.map fun d => (d.1, Life.stale) }, e0 ++ e1 ++ e2)
 
 /-- `handle_message` / the `rebirth_rx` arm of `Node::run` -/
 def step (c : Cfg) (s : St) (i : In) (now wall : Nat) : St × List Eff :=
